@@ -14,13 +14,17 @@ from sfc_models.utils import LogicError
 NAMES = ['x', 'xx', 'x1', '_x', 'x_', 'e', 'j', 'k']
 # names whose spelling a numeric constructor (float(), complex()) would accept: they are names to the tokenizer and to eval()
 NUMLIKE = ['INF', 'nan', 'Infinity', 'inf', 'NaN']
+# identifiers outside ASCII (Python 3 names; the tokenizer reports them as NAME tokens like any other)
+UNINAMES = ['α', 'αβ', 'xα', 'é1', 'Δx']
 LITS = ['1e5', '0x1F', '2j', '.5', '1_000', '1e+5', '"x"', "'xx e'", '3', '2.5e-3']
 MAPS = [
     {'x': 'y'}, {'x': 'xx'}, {'xx': 'x'}, {'x': 'xx', 'xx': 'x'}, {'x': 'x1', 'x1': 'x_'}, {'e': 'E'}, {'j': 'J'}, {'k': 'kk'},
     {'x': 'e'}, {'_x': 'x_', 'x_': '_x'}, {'x': 'y', 'xx': 'yy', 'x1': 'y1'}, {'x': 'j', 'j': 'x'}, {'x': 'x'}, {'e': 'j', 'j': 'k', 'k': 'e'},
     {'x_': 'HH__x', 'x': 'HH__x_'}, {'INF': 'CB__INF', 'x': 'y'},
     # keys spelled like the tail of a numeric literal (exponent, hex digits, digit group, imaginary unit): legal names that must not be found inside numbers
-    {'e5': 'HH__e5', 'x1F': 'HH__x1F', '_000': 'HH__k', 'j': 'HH__j', 'e': 'HH__e', 'E': 'F', 'x': 'HH__x'}, {'nan': 'HH__nan', 'Infinity': 'HH__Infinity', 'inf': 'nan_', 'NaN': 'inf'}
+    {'e5': 'HH__e5', 'x1F': 'HH__x1F', '_000': 'HH__k', 'j': 'HH__j', 'e': 'HH__e', 'E': 'F', 'x': 'HH__x'}, {'nan': 'HH__nan', 'Infinity': 'HH__Infinity', 'inf': 'nan_', 'NaN': 'inf'},
+    # only non-ASCII keys; a swap between an ASCII and a non-ASCII name
+    {'α': 'HH__α', 'é1': 'y'}, {'x': 'α', 'α': 'x', 'Δx': 'dx'}
 ]
 
 
@@ -46,6 +50,13 @@ def expressions(tier):
     for a, b in itertools.product(atoms, atoms):
         out.append('[%s, %s]' % (a, b))
         out.append('[%s,]*%s' % (a, b))
+    for a, op, b in itertools.product(UNINAMES, ops2[:5], UNINAMES + NAMES[:3] + LITS[:3]):
+        out.append('%s%s%s' % (a, op, b))
+        out.append('%s%s%s' % (b, op, a))
+    for f, a in itertools.product(NAMES[:2] + UNINAMES[:2], UNINAMES):
+        out.append('%s(%s)' % (f, a))
+        out.append('%s(k-1)*%s + 1' % (f, a))
+        out.append('max(2.0, %s)' % a)
     for a in atoms:
         out += ['-%s' % a, '+ %s' % a, '(%s)' % a, '%s' % a, '((%s))*%s' % (a, a), ' %s ' % a, '+%s' % a, ' - %s' % a, '%s ' % a]
     return out
@@ -240,7 +251,7 @@ def run(tier, seed):
     import sfc_models.equation
     chk.encode(U.list_tokens, U.replace_token, U.replace_token_from_lookup, sfc_models.equation.Term.ReplaceTokensFromLookup, sfc_models.equation.Equation.ReplaceTokensFromLookup)
     ex = expressions(tier)
-    chk.bounds = {'expressions': len(ex), 'renaming maps': len(MAPS), 'names': NAMES + NUMLIKE, 'literals': LITS,
+    chk.bounds = {'expressions': len(ex), 'renaming maps': len(MAPS), 'names': NAMES + NUMLIKE + UNINAMES, 'literals': LITS,
                   'grammar': 'binary/ternary arithmetic, power, comparisons, calls (1-2 args), lag notation x(k-1) and tokenizer-spaced, '
                              'list literals, unary signs, brackets; <= 7 tokens',
                   'numeric domain': 'all reals for every name; string/complex literals as opaque constants; function symbols uninterpreted'}
